@@ -30,6 +30,7 @@ DEFAULT_CFG = {
     "acyclic": False,
     "items_join_target": True,
     "pub_ctx": True,  # publishes may copy another context variable
+    "items_conc": True,  # with-items tasks may have a concurrency limit
 }
 
 
@@ -144,7 +145,7 @@ def wf_ir(draw, c=None):
                 cnt = draw(st.sampled_from([0, 1, 2, 3, 3, 4]))
                 t["with"] = {"items": E(["lit", list(range(cnt))], lp(draw)), "keys": draw(st.sampled_from([None, ["i"]]))}
                 conc = draw(st.sampled_from([None, None, 1, 2, 3]))
-                if conc is not None:
+                if conc is not None and c["items_conc"]:
                     t["with"]["concurrency"] = conc
         if c["retry"] and draw(st.floats(0, 1)) < c["retry"]:
             t["retry"] = {"count": draw(st.integers(0, 2))}
